@@ -67,10 +67,12 @@ def extract(g, X):
         for m in re.finditer(r'"(\w+)"\s*=>\s*Ok\(\s*PagesNode::(Leaf|Tree)\(\s*t!\(\s*(Page|PageTree)::from_dict', b):
             if (m.group(2), m.group(3)) not in (("Leaf", "Page"), ("Tree", "PageTree")):
                 raise ValueError("variant / struct mismatch in " + m.group(0))
-            out.append("(%s, %d)" % (cstr(m.group(1)), 0 if m.group(2) == "Leaf" else 1))
+            out.append((m.group(1), 0 if m.group(2) == "Leaf" else 1))
         if not out:
             raise ValueError("no arms")
-        return "[" + "; ".join(out) + "]"
+        # string patterns are disjoint: the order of the arms is immaterial
+        out = X.ordered_by_key(out, ["Page", "Pages"])
+        return "[" + "; ".join("(%s, %d)" % (cstr(n), c) for n, c in out) + "]"
     g.attempt([("pagesnode_types", "list (list N * N)")], "types.rs:PagesNode::from_primitive", node_types)
 
     def keys(name, only=None):
